@@ -91,7 +91,7 @@ SEQ_QARGS = [{}, {"a": "a b"}]
 SEQ_HEADERS = [[], [("X-A", "1")]]
 
 
-def check(method, path, qargs, headers, bkind, bval, explicit_cl, via_client=False, prior=None):
+def check(method, path, qargs, headers, bkind, bval, explicit_cl, via_client=False, prior=None, again=False):
     v = []
     kw = dict(method=method, path=path, qargs=dict(qargs), headers=dict(headers))
     if bkind in ("raw", "str"):
@@ -103,6 +103,11 @@ def check(method, path, qargs, headers, bkind, bval, explicit_cl, via_client=Fal
     try:
         if via_client:
             msg = build_via_client(kw)
+        elif again:                 # the very same request is built a second time (a re-send: rebuild() with nothing but the body source)
+            rq = clienting.Requester(hostname="127.0.0.1", port=6101, **kw)
+            rq.build()
+            # (reinit keeps method, path, query and headers and deliberately drops body / data / fargs: those are given again)
+            msg = rq.rebuild(**{k: v for k, v in kw.items() if k in ("body", "data", "fargs")})
         elif prior is not None:     # the Requester built another request before (as http.Client reuses its requester)
             rq = clienting.Requester(hostname="127.0.0.1", port=6101, **PRIORS[prior])
             rq.build()
@@ -259,12 +264,28 @@ def run_job(job, tier, seed):
                         acc.case(case, "ok" if not viols else viols[0][0], viols, sample=dict(method=method, path=path, prior=pri, body_kind=bkind))
                     else:
                         acc.bulk(1, 1)
+    # the same request built twice by one Requester (a re-send): the second one is recovered like the first
+    for qs in range(len(SEQ_QARGS)):
+        for hsel in range(len(SEQ_HEADERS)):
+            for bi, (bkind, bval) in enumerate(BODIES):
+                viols = [("sent-again:" + k, m) for k, m in
+                         check(method, path, SEQ_QARGS[qs], SEQ_HEADERS[hsel], bkind, bval, False, again=True)]
+                case = ["again", 0, method, pi, qs, hsel, bi]
+                cnt += 1
+                if viols or cnt % 1499 == 1:
+                    acc.case(case, "ok" if not viols else viols[0][0], viols, sample=dict(method=method, path=path, again=True, body_kind=bkind))
+                else:
+                    acc.bulk(1, 1)
     acc.r.obs.add(hash((method, pi)))
     return acc.result()
 
 
 def replay(job, case):
     import os
+    if case[0] == "again":
+        _, _z, method, pi, qs, hsel, bi = case
+        return [("sent-again:" + k, m) for k, m in
+                check(method, PATHS[pi], SEQ_QARGS[qs], SEQ_HEADERS[hsel], BODIES[bi][0], BODIES[bi][1], False, again=True)]
     if case[0] == "seq":
         _, pri, method, pi, qs, hsel, bi = case
         return [("after-earlier-request:" + k, m) for k, m in
